@@ -16,7 +16,7 @@ SPEC = dict(
     props_module="Refinery.Props.C11",
     gen_module="Refinery.Gen.Tracekey",
     quick=dict(cases=1200, len=130, shards=4),
-    thorough=dict(cases=48000, len=130, shards=16),
+    thorough=dict(cases=32000, len=130, shards=16),
     nontrivial=nontrivial,
     rule="cases = one sampler configuration (0-3 key fields, 0-2 root.-prefixed fields, UseTraceLength on/off) and a "
          "family of traces run through the real traceKey.build and the five real samplers' GetSampleRate: a base trace "
@@ -33,13 +33,13 @@ SPEC = dict(
         text="Lean theorems over all traces, field lists and value renderings: the key is a function of the per-field sets of "
              "distinct values, the root span and (UseTraceLength) the span count (key_determined), hence invariant under any "
              "permutation (perm_invariant) and under duplicating spans (dup_invariant / dup_changes_only_length) below the cap; "
-             "key separation is REFUTED for the code as written (key_separates_refuted: the empty-string value is never written, "
-             "{\"\",\"a\"} and {\"a\"} collide) and proved for traces without empty-string values (key_separates_partial); "
+             "key separation (key_separates: all fields present, some value set differs, values free of the delimiters - the empty "
+             "string allowed - below the cap => different keys) is proved at full strength for the repaired loop of commit a1a4703; "
              "rate_floor, keep_iff_draw_zero, keep_one_in_rate for every dynsampler answer and every draw. The model is tied to "
              "sample/trace_key.go and the five samplers by running generated traces through the real code and comparing every "
              "key, count, rate and keep decision, plus a monitor of the property on the implementation's own observations.",
         note="Trusted: Lean kernel; the differential check (sampled); Go's formatting, wyhash (no collision among a trace's values), "
-             "dynsampler-go and math/rand uniformity are external. Known finding: empty-string values are dropped from the key.",
+             "dynsampler-go and math/rand uniformity are external. Fixed finding (a1a4703): empty-string values used to be dropped from the key; corpus/C11/empty-string-value.ops is the regression case.",
         technique="Lean 4 proof (canonical form of the key below the cap; parsing the key back for separation) + model/implementation correspondence check",
     ),
     assumptions=["distinctValue dedups by wyhash of the rendering; the model dedups by the rendering (no 64-bit collision among one trace's values)",
